@@ -10,10 +10,10 @@ import (
 
 func init() {
 	register(&propDef{
-		ID:    "C02",
-		Level: "other",
+		ID:      "C02",
+		Level:   "other",
 		Explain: "Atomic replacement, last-good-table and crash-freedom conditions decided on all paths/sites: (A1) the active table lives in one sync/atomic value that is touched only through Load/Store in the getter, the setter and package init; (A2) nothing writes a table after it has been handed to the publishing store (setter body and every caller); (A3) no function reachable from a per-request entry writes a route.Table/Route/Target that is shared (all schedules); (A4) one table snapshot per lookup; (L1) every SetTable call receives a constructor's result and is either unreachable from the constructor's error edge or (custom backend) relies on L2+L3; (L2) NewTable/NewTableCustom return a nil table with every possibly-non-nil error; (L3) SetTable stores only under t != nil; (L4) in the update loop the constructor's error edge goes back to the loop head without leaving the loop, installing a table or advancing the 'last installed text'; (P*) partial operations in everything reachable from NewTable/NewTableCustom/Parse/ParseAliases and the lookup path are guarded: submatch indices vs. the regexp's capture-group count under m != nil, Split indices vs. dominating length facts, integer divisions vs. non-zero facts, the ring allocation vs. usedSlots > 0, non-finite weights rejected by the parser, no MustCompile(non-constant)/panic on the lookup path, the custom definition list is nil-checked before it is dereferenced. (P9) every Route carries a Glob that is the result of a successful glob.Compile (the glob matcher dereferences it). (L4, extended) the last installed text is carried round the loop as an immutable string snapshot (tableBuffer.String()) and compared with the candidate, never as a byte view of the reused buffer; (A2/S5, extended) library calls that reorder their argument in place (sort.Slice, sort.Sort, slices.Sort*, copy) count as writes through it, also inside callees such as Table.Dump reached from logRoutes; Not decided: that gobwas/glob.Compile, net/url.Parse and regexp never panic (trusted).",
-		Run:   runC02,
+		Run:     runC02,
 		Trusted: []string{"sync/atomic.Value Load/Store are atomic", "gobwas/glob.Compile, net/url.Parse, regexp matching do not panic", "encoding/json stores nil into a pointer for the JSON text null"},
 		Mutants: []mutant{
 			{Name: "last table kept as a view of the reused buffer", File: "main.go", Old: "\t\tlastTable   string\n", New: "\t\tlastTable   []byte\n", Expect: "C02.L4", More: []repl{{"\t\tnextTable   string\n", "\t\tnextTable   []byte\n"}, {"if nextTable = tableBuffer.String(); nextTable == lastTable {", "if nextTable = tableBuffer.Bytes(); bytes.Equal(nextTable, lastTable) {"}, {"aliases, err := route.ParseAliases(nextTable)", "aliases, err := route.ParseAliases(string(nextTable))"}, {"logRoutes(t, lastTable, nextTable, cfg.Log.RoutesFormat)", "logRoutes(t, string(lastTable), string(nextTable), cfg.Log.RoutesFormat)"}}},
